@@ -65,7 +65,8 @@ impl N {
         N {
             integral: it.trunc() as i64,
             fractional: Some((it.fract() * 1_000_000_000.0) as i64),
-            exact_bits: Some(it.to_bits()),
+            // (an infinity, as in the literal type `1e999`, has no JSON number: it stays the saturated value)
+            exact_bits: if it.is_finite() { Some(it.to_bits()) } else { None },
         }
     }
     pub fn parse_int(it: i64) -> Self {
